@@ -84,7 +84,45 @@ def attribute(case, message, bucket):
     return None
 
 
-def faulted_run(prog, mode, i, kind, baseline, keep_state=False):
+def tag_uids(prog):
+    """Copy of the program in which every component tag passes a unique literal kwarg uid="uN" (identifies the TAG in
+    tick labels, so that a tick can be related to the model instances created from that tag without modelling the
+    order in which the library calls user code)."""
+    import copy
+
+    p = copy.deepcopy(prog)
+    n = 0
+    for nodes in [c["tpl"] for c in p["comps"]] + [p["page"]["tpl"]]:
+        for node in pgstrat.walk(nodes):
+            if node["t"] == "comp":
+                n += 1
+                node["kwargs"] = dict(node["kwargs"], uid={"lit": "u%d" % n})
+    return p
+
+
+def chains_by_uid(it):
+    out = {}
+    for inst in it.instances:
+        chain = []
+        x = inst
+        while x is not None:
+            chain.append(x.spec["name"])
+            x = x.parent
+        out.setdefault(inst.kwargs.get("uid"), set()).add(tuple(reversed(chain)))
+    return out
+
+
+def path_names(message):
+    """Component names of 'An error occured while rendering components A > B(slot:x) > C:' (slot entries dropped)."""
+    first = message.split("\n", 1)[0]
+    marker = "rendering components "
+    if marker not in first:
+        return None
+    body = first.split(marker, 1)[1].rstrip(":")
+    return [x.strip() for x in body.split(" > ") if "(slot:" not in x and x.strip()]
+
+
+def faulted_run(prog, mode, i, kind, baseline, keep_state=False, expect_chain=None):
     """One run in which invocation i raises. Returns list of (message, bucket) and label of the tick."""
     fails = []
     exc = make_exc(kind, i)
@@ -105,6 +143,22 @@ def faulted_run(prog, mode, i, kind, baseline, keep_state=False):
             fails.append(("[%s] invocation #%d (%s): message %r no longer ends with the original message %r" % (mode, i, label, str(got), ORIG[kind](i)), "c06-message-mangled"))
         if kind == 5 and (got.a, got.b) != ("c-%d" % i, {"k": i}):
             fails.append(("[%s] custom exception attributes changed: %r" % (mode, (got.a, got.b)), "c06-exception-attrs"))
+        if expect_chain is not None and got.args and isinstance(got.args[0], str):
+            names = path_names(got.args[0])
+            if names is None:
+                fails.append(("[%s] invocation #%d (%s): exception message carries no component path: %r" % (mode, i, label, got.args[0][:200]), "c06-path-missing"))
+            else:
+                from collections import Counter
+
+                ok = any(not (Counter(names) - Counter(ch)) and names and names[-1] == ch[-1] for ch in expect_chain)
+                if not ok:
+                    fails.append(
+                        (
+                            "[%s] invocation #%d (%s): component path %r in the message names components that do not enclose the failing instance (enclosing chains, in the rendered structure, of the instances created by that tag: %r)"
+                            % (mode, i, label, names, sorted(expect_chain)),
+                            "c06-path-wrong",
+                        )
+                    )
     residue = res.residue
     if residue:
         fails.append(("[%s] after invocation #%d (%s) raised: registries not empty: %r" % (mode, i, label, residue), "c06-residue:" + ",".join(sorted(residue))))
@@ -148,7 +202,7 @@ def _is_nontrivial(label, labels_before):
 
 
 def check_program(case, col=None):
-    prog = case["program"]
+    prog = tag_uids(case["program"])
     fails = []
     for mode in case.get("modes", ["django", "isolated"]):
         kind, exp, it = pgrun.run_model(prog, mode)
@@ -170,6 +224,12 @@ def check_program(case, col=None):
             fails.append(("[%s] harness: tick sequence differs between two fault-free runs" % mode, "c06-harness-nondeterministic"))
             continue
         n = tk0.n
+        # relate gcd / inject ticks to the model instances created by the same tag (for the component-path clause)
+        by_uid = chains_by_uid(it)
+        chains = {}
+        for idx, lb in enumerate(tk0.labels, 1):
+            if lb.startswith(("gcd:", "inject:")) and "@" in lb and lb.split("@", 1)[1] in by_uid:
+                chains[idx] = by_uid[lb.split("@", 1)[1]]
         only = case.get("only_i")
         cap = case.get("cap")
         if cap and n > cap and not only:
@@ -184,7 +244,9 @@ def check_program(case, col=None):
             if only and i not in only:
                 continue
             k = (case.get("exc_kind", 0) + i) % 7
-            f, label = faulted_run(prog, mode, i, k, baseline)
+            f, label = faulted_run(prog, mode, i, k, baseline, expect_chain=chains.get(i) if k in ORIG else None)
+            if col is not None and i in chains and k in ORIG:
+                col.count("component_path_judged")
             fails.extend(f)
             if col is not None:
                 nt = _is_nontrivial(label, tk0.labels[: i - 1])
